@@ -5,6 +5,9 @@
 #define C10_VERSION_H
 typedef struct { int vx, vy, vz; } FormatVersion;      /* data members of class FormatVersion */
 
+/* FormatVersion({x, y, z}): initializer-list constructor (three elements) and address of a temporary */
+static inline FormatVersion mk_FormatVersion_list(int x, int y, int z) { FormatVersion v; v.vx = x; v.vy = y; v.vz = z; return v; }
+static inline FormatVersion *TMP_FormatVersion(FormatVersion v) { FormatVersion *p = malloc(sizeof(FormatVersion)); __CPROVER_assume(p != NULL); *p = v; return p; }
 #define FV_OK(p) __CPROVER_is_fresh(p, sizeof(FormatVersion))
 /* second operand may alias the first (a < a is legal C++) */
 #define FV_OK2(a, b) (FV_OK(a) && ((b) == (a) || FV_OK(b)))
